@@ -16,6 +16,8 @@ Conventions
   the Go bounds (`Go.idxOK`, `Go.sliceOK`, against the *length*, which is stricter than Go's
   capacity rule for slices) before the statement that indexes: a failed test makes the body return
   `none` (= run-time panic). So a body that indexes has result type `Option _`.
+* Functions whose `FnSpec` has a fault mode (`util.Queue`) return `Except fault _` instead: a
+  failed bounds test is the panic fault, blocking for ever the deadlock fault.
 * `for … range` is `Go.forRange`: the body maps (index, element, state) to a `Go.Ctl`
   (`next` = fell off the end / `continue`, `brk` = `break`, `ret` = `return` from the function).
 -/
